@@ -8,8 +8,8 @@ LEVEL = "fault_enumeration"
 def run(tier):
     rep = common.Report("C20", tier, LEVEL)
     _common.model_checks(rep, [("Pool", "Pool_a.cfg"), ("Pool", "Pool_b.cfg"),
-                               ("MC_TiccLoop", "MC_TiccLoop_small.cfg")] +
-                         ([("Pool", "Pool_c.cfg"), ("MC_TiccLoop", "MC_TiccLoop_m2.cfg")] if tier == "thorough" else []))
+                               ] + list(_common.TICC_MODELS[tier]) +
+                         ([("Pool", "Pool_c.cfg")] if tier == "thorough" else []))
     fc = corpus.cached(f"faults_{tier}_{common.seed()}", lambda: faultruns.build_fault_corpus(tier))
     exps = fc["experiments"]
     ftraces, memo, points = [], [], set()
